@@ -473,6 +473,27 @@ def check_guards(ctx, rid, prop):
         # (a site may acquire further controlling tests — e.g. a new early error exit above it — without violating anything:
         #  the reviewed terms must be included in the site's terms)
         ok = _sites_included(want, got) or _sites_included(_merge_complementary(want), got)
+        if not ok and e['action'] == 'err':
+            # `match o { Some(v) => Ok(v), None => Err(E) }` rewritten as `o.ok_or(E)`: the test moved into the combinator,
+            # which is called under the remaining (outer) tests of the reviewed site
+            comb = [sorted(core.control_terms(F, f, bi)) for bi, t in f.calls(lambda t: t['fn'].startswith(('std::option::Option::ok_or', 'std::result::Result::or', 'std::option::Option::map_or', 'std::result::Result::map_or')))]
+            if comb:
+                pseudo = [list(w) for w in want if any(_terms_included(c, w) for c in comb)]
+                ok = _sites_included(want, got + pseudo)
+        if not ok and e['action'].startswith('ret:'):
+            # `match o { Some(r) => Ready(Some(Ok(r))), None => Ready(None) }` rewritten as `Ready(o.map(Ok))`: the answer is
+            # computed by a combinator, under the remaining (outer) tests of the reviewed site
+            comb = []
+            for bi, si, pl, rv, ln in f.stmts():
+                if len(pl) == 1 and pl[0] == 0:
+                    rc = core._ret_class_rv(rv, f)
+                    if rc == '?' or 'call' in rc or (':' in rc and rc.split(':')[1][:1].islower()):
+                        comb.append(sorted(core.control_terms(F, f, bi)))
+            for bi, t in f.calls(lambda t: t['d'] == [0]):
+                comb.append(sorted(core.control_terms(F, f, bi)))
+            if comb:
+                pseudo = [list(w) for w in want if any(_terms_included(c, w) for c in comb)]
+                ok = _sites_included(want, got + pseudo)
         if not ok:
             # a test moved into a small helper: compare the flattened atom sets, looking through helpers that are not
             # themselves reviewed atoms (the per-switch structure is lost across the helper boundary)
